@@ -210,6 +210,7 @@ def analyse_scenario(item):
             raise ToolError("TLC (happens-before) error on %s: %s" % (name, out[-2000:]))
         res["cex"].append({"kind": "race", "prop": "NoRace", "schedule": sch})
     res["schedules"] = es.simulate_schedules(wd, "MCsim", cfg, txt, progs, 150 if tier == "quick" else 1500, seed)
+    res["cover"] = es.cover_schedules(wd, "MCcov", cfg, txt, progs)
     res["wall"] = round(time.time() - t0, 1)
     shutil.rmtree(wd, ignore_errors=True)
     rv.dump_json_atomic(cfile, res)
@@ -262,6 +263,9 @@ def run(prop, tier, seed):
         for i, s in enumerate(a["schedules"]):
             grp.append({"id": "sim:%s:%d" % (a["name"], i), "cfg": a["cfg"], "setup": a["setup"], "threads": a["progs"],
                         "schedule": s, "budget": 6000})
+        for cv in a.get("cover", []):
+            grp.append({"id": "cov:%s:%s" % (a["name"], cv["label"]), "cfg": a["cfg"], "setup": a["setup"], "threads": a["progs"],
+                        "schedule": cv["schedule"], "budget": 6000})
         n_rand = 60 if tier == "quick" else 600
         for i in range(n_rand):
             grp.append({"id": "pct:%s:%d" % (a["name"], i), "cfg": a["cfg"], "setup": a["setup"], "threads": a["progs"],
@@ -312,7 +316,7 @@ def run(prop, tier, seed):
         if ln.startswith('{"cfg"') or '"ev":"reset"' in ln[:600]:
             did = json.loads(ln)["id"]
             parts = did.split(":")
-            cur = parts[1] if parts[0] in ("cex", "sim", "pct") else None
+            cur = parts[1] if parts[0] in ("cex", "sim", "pct", "cov") else None
         if cur:
             per.setdefault(cur, []).append(ln)
 
@@ -376,7 +380,7 @@ def run(prop, tier, seed):
         "traces_validated_against_impl": sum(len(g) for (_, g) in impl_groups.values()),
         "samples": [{"scenario": analysed[0]["name"], "programs": analysed[0]["progs"], "schedule": (analysed[0]["schedules"] or [[]])[0][:40]}],
         "evaluations": len(drivers),
-        "distinct_nontrivial": len({json.dumps(d["schedule"]) + d["id"].split(":")[1] for d in drivers if d["id"].split(":")[0] in ("sim", "cex", "pct")}),
+        "distinct_nontrivial": len({json.dumps(d["schedule"]) + d["id"].split(":")[1] for d in drivers if d["id"].split(":")[0] in ("sim", "cex", "pct", "cov")}),
         "rule": "every interleaving of %d scenarios explored exhaustively by TLC (safety invariants; liveness under weak fairness where flagged); "
                 "real executions = TLC simulation schedules + TLC counterexample schedules + seeded bursty/PCT schedules + random programs; "
                 "non-trivial = distinct (scenario, schedule) pairs forced on the real code" % len(analysed),
@@ -389,6 +393,8 @@ def run(prop, tier, seed):
         # non-vacuity of the binding: which arms of the micro-op table the real code executed (matched access by access)
         "micro_op_labels_executed_by_real_code": sorted(es.LABELS_SEEN),
         "micro_op_labels_never_executed": sorted(set(es.all_labels()) - es.LABELS_SEEN),
+        # arms no interleaving of any scenario reaches in the model (exhaustive): dead in the repaired protocol, or not exercised
+        "micro_op_labels_unreachable_in_model": sorted(set(es.all_labels()) - {cv["label"] for a in analysed for cv in a.get("cover", [])}),
     }
     assumptions = [
         "interleaving (sequentially consistent) semantics at the granularity of the crate's atomic accesses; weak-memory-only behaviours are not enumerated",
